@@ -340,6 +340,54 @@ def lsh_units(tier):
                            "what": "inner 'let x' shadowing an outer mutable x in [%s] of a %s loop, left by %s at i==%d" % (where, loop, ctl, k)}
 
 
+# ------------------------------------------------------------------------------------------ loop after loop
+def lseq_units(tier):
+    """every ordered pair of loops (kind x control statement) at the same nesting depth: one after the other in one function,
+    the first in a function compiled earlier, and the second nested one level deeper - whatever a compiler keeps per
+    loop (jump patch lists, 'continue goes forward' flags) must not leak from the first loop into the second."""
+    kinds = [(l, c) for l in ("for", "while") for c in ("break", "continue", "none")]
+
+    def loop_src(tag, l, c, ind):
+        ctl = {"break": "if (== %s 2) { break } else {}" % tag, "continue": "if (== %s 1) { continue } else {}" % tag, "none": "(println 77)"}[c]
+        if l == "for":
+            return ("%sfor %s in (range 0 4) {\n%s    %s\n%s    (println %s)\n%s}\n" % (ind, tag, ind, ctl, ind, tag, ind))
+        return ("%slet mut %sw: int = 0\n%swhile (< %sw 4) {\n%s    let %s: int = %sw\n%s    set %sw (+ %sw 1)\n%s    %s\n%s    (println %s)\n%s}\n"
+                % (ind, tag, ind, tag, ind, tag, tag, ind, tag, tag, ind, ctl, ind, tag, ind))
+
+    def loop_out(c):
+        out = []
+        for i in range(4):
+            if c == "break" and i == 2:
+                break
+            if c == "continue" and i == 1:
+                continue
+            if c == "none":
+                out.append("77\n")
+            out.append("%d\n" % i)
+        return "".join(out)
+    n = 0
+    for (l1, c1) in kinds:
+        for (l2, c2) in kinds:
+            for shape in ("same-function", "earlier-function", "second-nested-in-if"):
+                uname = "lseq_%d" % n
+                n += 1
+                decls = ""
+                if shape == "earlier-function":
+                    decls = "fn %s_first() -> int {\n%s    return 1\n}\nshadow %s_first { assert true }\n" % (uname, loop_src("p", l1, c1, "    "), uname)
+                    body = "    (println (%s_first))\n" % uname + loop_src("q", l2, c2, "    ")
+                    exp = loop_out(c1) + "1\n" + loop_out(c2)
+                elif shape == "same-function":
+                    body = loop_src("p", l1, c1, "    ") + loop_src("q", l2, c2, "    ")
+                    exp = loop_out(c1) + loop_out(c2)
+                else:
+                    body = loop_src("p", l1, c1, "    ") + "    if true {\n" + loop_src("q", l2, c2, "        ") + "    } else {}\n"
+                    exp = loop_out(c1) + loop_out(c2)
+                body += "    (println \"end\")\n    return 0\n"
+                yield {"name": uname, "decls": decls, "body": body, "expected": exp + "end\n", "ret": 0,
+                       "what": "%s loop with %s, then %s loop with %s (%s)" % (l1, c1, l2, c2, shape)}
+
+
 def units(tier):
-    for u in itertools.chain(esc_units(tier), loop_units(tier), size_units(tier), evo_units(tier), mhist_units(tier), flt_units(tier), grow_units(tier), lsh_units(tier)):
+    for u in itertools.chain(esc_units(tier), loop_units(tier), size_units(tier), evo_units(tier), mhist_units(tier), flt_units(tier), grow_units(tier), lsh_units(tier),
+                             lseq_units(tier)):
         yield u
